@@ -635,6 +635,9 @@ func (c *FnCtx) specGoCall(env *Env, x *ast.CallExpr) Val {
 
 func (c *FnCtx) specArgConv(env *Env, v Val, t types.Type) Val {
 	t = c.subst(t)
+	if _, isTP := t.(*types.TypeParam); isTP {
+		return v
+	}
 	if isNilVal(v) {
 		return c.zero(t)
 	}
